@@ -146,6 +146,50 @@ Section TopTyped.
       if (skip : bool) then Ok ([], m, ds1, false) else
       bind (ask_excl 0 (count_ne m) ds1) (fun '(ki, ds2) =>
         bind (take_ne front ki m ds2) (fun '(rel, m', ds3) => Ok (rel, m', ds3, true)))).
+
+  (* ---------------------------------------------------------------- TopLevelKeyedMergeOrderedHook
+     candidates: the non-empty keys of the first input (its iteration order), then those of
+     the second; the front item of the chosen one is released *)
+  Definition decide_top_kmerge (force : bool) (m1 m2 : list (K * list A)) (ds : script)
+    : res (list (K * A) * list (K * list A) * list (K * list A) * script * bool) :=
+    bind (decide_top_keyed true force (m1 ++ m2) ds) (fun '(rel, m', ds', nt) =>
+      Ok (rel, firstn (length m1) m', skipn (length m1) m', ds', nt)).
+
+  (* ---------------------------------------------------------------- inline KeyedStreamOrderHook
+     [gs]: the batch grouped by key, in the iteration order of the grouping map *)
+  Fixpoint kshuffle (gs : list (K * list A)) (ds : script) : res (list (K * list A) * script) :=
+    match gs with
+    | [] => Ok ([], ds)
+    | (k, vs) :: r =>
+      bind (decide_shuffle vs ds) (fun '(vs', ds1) =>
+        bind (kshuffle r ds1) (fun '(r', ds2) => Ok ((k, vs') :: r', ds2)))
+    end.
+
+  (* ---------------------------------------------------------------- inline PartiallyOrderedStreamHook
+     [gs]: the batch grouped by key in first-seen order; repeatedly the front item of a
+     non-empty key *)
+  Fixpoint po_loop (fuel : nat) (gs : list (K * list A)) (ds : script) : res (list (K * A) * script) :=
+    match fuel with
+    | 0 => Ok ([], ds)
+    | S f =>
+      if count_ne gs =? 0 then Ok ([], ds) else
+      bind (ask_excl 0 (count_ne gs) ds) (fun '(ki, ds1) =>
+        bind (take_ne true ki gs ds1) (fun '(rel, gs', ds2) =>
+          bind (po_loop f gs' ds2) (fun '(out, ds3) => Ok (rel ++ out, ds3))))
+    end.
+
+  Definition total_items (gs : list (K * list A)) : nat := length (concat (map snd gs)).
+  Definition decide_partial (gs : list (K * list A)) (ds : script) := po_loop (total_items gs) gs ds.
+
+  (* ---------------------------------------------------------------- inline KeyedMergeOrderedHook
+     [gs]: per key (first-seen order over both inputs) its items in the first and second input *)
+  Fixpoint kmerge (gs : list (K * (list A * list A))) (ds : script) : res (list (K * A) * script) :=
+    match gs with
+    | [] => Ok ([], ds)
+    | (k, (a, b)) :: r =>
+      bind (decide_merge a b ds) (fun '(o, ds1) =>
+        bind (kmerge r ds1) (fun '(out, ds2) => Ok (map (pair k) o ++ out, ds2)))
+    end.
 End TopTyped.
 
 (* ==================================================================== correspondence *)
@@ -155,13 +199,15 @@ Inductive thook : Type :=
 | TOrder (q : list N)
 | TFold (q : list N)
 | TMerge (q1 q2 : list N)
-| TKeyed (front : bool) (m : list (N * list N)).
+| TKeyed (front : bool) (m : list (N * list N))
+| TKMerge (m1 m2 : list (N * list N)).
 
 Definition tqueues (h : thook) : list (N * list N) :=
   match h with
   | TOrder q | TFold q => [(0, q)]
   | TMerge q1 q2 => [(0, q1); (1, q2)]
   | TKeyed _ m => m
+  | TKMerge m1 m2 => m1 ++ m2
   end.
 
 Definition tcan (h : thook) : bool :=
@@ -169,6 +215,7 @@ Definition tcan (h : thook) : bool :=
   | TOrder q | TFold q => negb (is_nil q)
   | TMerge q1 q2 => negb (is_nil q1) || negb (is_nil q2)
   | TKeyed _ m => negb (all_empty m)
+  | TKMerge m1 m2 => negb (all_empty (m1 ++ m2))
   end.
 
 (* autonomous_decision + release_decision: released items, new state, rest, return value *)
@@ -180,6 +227,8 @@ Definition tauto (h : thook) (force : bool) (ds : script) : res (list N * thook 
     bind (decide_top_merge force q1 q2 ds) (fun '(rel, a, b, ds', nt) => Ok (rel, TMerge a b, ds', nt))
   | TKeyed front m =>
     bind (decide_top_keyed front force m ds) (fun '(rel, m', ds', nt) => Ok (map snd rel, TKeyed front m', ds', nt))
+  | TKMerge m1 m2 =>
+    bind (decide_top_kmerge force m1 m2 ds) (fun '(rel, a, b, ds', nt) => Ok (map snd rel, TKMerge a b, ds', nt))
   end.
 
 (* the items as sent on the output channel (keyed hooks send (key, value) pairs) *)
@@ -187,6 +236,8 @@ Definition temit (h : thook) (force : bool) (ds : script) : list (N * N) :=
   match h with
   | TKeyed front m =>
     match decide_top_keyed front force m ds with Ok (rel, _, _, _) => rel | _ => [] end
+  | TKMerge m1 m2 =>
+    match decide_top_kmerge force m1 m2 ds with Ok (rel, _, _, _, _) => rel | _ => [] end
   | _ => match tauto h force ds with Ok (rel, _, _, _) => unkeyed rel | _ => [] end
   end.
 
@@ -218,6 +269,15 @@ Fixpoint subseq_b (s l : list N) : bool :=
 Definition q1of (m : list (N * list N)) : list N := match m with _ :: [(_, q)] => q | _ => [] end.
 Definition qAof (m : list (N * list N)) : list N := match m with (_, q) :: _ => q | [] => [] end.
 
+(* positional: exactly one entry lost its front item [x] (key [k]), all others unchanged *)
+Fixpoint one_front_taken (k x : N) (before after : list (N * list N)) : bool :=
+  match before, after with
+  | (kb, qb) :: b', (ka, qa) :: a' =>
+    N.eqb kb ka
+    && ((N.eqb kb k && ln_eqb qb (x :: qa) && map_eqb b' a') || (ln_eqb qb qa && one_front_taken k x b' a'))
+  | _, _ => false
+  end.
+
 (* C36 for the observation hooks, on the implementation's (before, emitted, after) *)
 Definition top_sound_b (h : thook) (before : list (N * list N)) (emitted : list (N * N))
            (after : list (N * list N)) : bool :=
@@ -245,6 +305,12 @@ Definition top_sound_b (h : thook) (before : list (N * list N)) (emitted : list 
                              else ln_eqb qa (snd e)
                            | None => false
                            end) before
+    | _ => false
+    end
+  | TKMerge _ _ =>
+    match emitted with
+    | [] => map_eqb before after
+    | [(k, x)] => one_front_taken k x before after
     | _ => false
     end
   end.
@@ -283,4 +349,82 @@ Definition merge_verdict (a b : list N) (ds : script) (out : option (list N)) (u
      | Ok (m, rest) => if ln_eqb m o && Nat.eqb used (length ds - length rest) then 0 else 1
      | _ => 1
      end) + (if merge_b a b o then 0 else 2)
+  end.
+
+(* ------------------------------------------------------------------ keyed inline hooks *)
+(* grouped.entry(k).or_insert_with(Vec::new).push(v): first-seen key order *)
+Fixpoint group_push (k v : N) (g : list (N * list N)) : list (N * list N) :=
+  match g with
+  | [] => [(k, [v])]
+  | (k', q) :: g' => if N.eqb k k' then (k', q ++ [v]) :: g' else (k', q) :: group_push k v g'
+  end.
+Definition group_pairs (l : list (N * N)) : list (N * list N) :=
+  fold_left (fun g e => group_push (fst e) (snd e) g) l [].
+
+Fixpoint dedup_keys (l : list N) : list N :=
+  match l with
+  | [] => []
+  | k :: r => k :: filter (fun k' => negb (N.eqb k k')) (dedup_keys r)
+  end.
+
+Definition flat (g : list (N * list N)) : list (N * N) :=
+  concat (map (fun e => map (pair (fst e)) (snd e)) g).
+
+Definition kvperm_b (a b : list (N * N)) : bool :=
+  forallb (fun k => perm_b (vals_of k a) (vals_of k b)) (dedup_keys (map fst (a ++ b)))
+  && Nat.eqb (length a) (length b).
+
+(* KeyedStreamOrderHook: [order1] = iteration order of the grouping map (decisions are taken in
+   that order); the output is flattened in the iteration order of a second map, read off the
+   implementation's output *)
+Definition kshuffle_verdict (input : list (N * N)) (order1 : list N) (ds : script)
+           (out : option (list (N * N))) (used : nat) : N :=
+  match reorder (group_pairs input) order1 with
+  | None => 1
+  | Some gs =>
+    match out with
+    | None => match kshuffle gs ds with Ok _ => 1 | _ => 0 end
+    | Some o =>
+      (match kshuffle gs ds with
+       | Ok (gs', rest) =>
+         match reorder gs' (dedup_keys (map fst o)) with
+         | Some g2 => if kv_eqb (flat g2) o && Nat.eqb used (length ds - length rest) then 0 else 1
+         | None => 1
+         end
+       | _ => 1
+       end) + (if kvperm_b o input then 0 else 2)
+    end
+  end.
+
+(* PartiallyOrderedStreamHook: a permutation that keeps every key's items in their order *)
+Definition partial_verdict (input : list (N * N)) (ds : script) (out : option (list (N * N))) (used : nat) : N :=
+  let gs := group_pairs input in
+  match out with
+  | None => match decide_partial gs ds with Ok _ => 1 | _ => 0 end
+  | Some o =>
+    (match decide_partial gs ds with
+     | Ok (m, rest) => if kv_eqb m o && Nat.eqb used (length ds - length rest) then 0 else 1
+     | _ => 1
+     end)
+    + (if forallb (fun k => ln_eqb (vals_of k o) (vals_of k input)) (dedup_keys (map fst (o ++ input)))
+          && Nat.eqb (length o) (length input) then 0 else 2)
+  end.
+
+(* KeyedMergeOrderedHook: keys in first-seen order (first input, then second); per key an
+   order-preserving interleaving of its two sub-sequences *)
+Definition kmerge_groups (a b : list (N * N)) : list (N * (list N * list N)) :=
+  map (fun k => (k, (vals_of k a, vals_of k b))) (dedup_keys (map fst (a ++ b))).
+
+Definition kmerge_verdict (a b : list (N * N)) (ds : script) (out : option (list (N * N))) (used : nat) : N :=
+  let gs := kmerge_groups a b in
+  match out with
+  | None => match kmerge gs ds with Ok _ => 1 | _ => 0 end
+  | Some o =>
+    (match kmerge gs ds with
+     | Ok (m, rest) => if kv_eqb m o && Nat.eqb used (length ds - length rest) then 0 else 1
+     | _ => 1
+     end)
+    + (if forallb (fun g => merge_b (fst (snd g)) (snd (snd g)) (vals_of (fst g) o)) gs
+          && ln_eqb (dedup_keys (map fst o)) (map fst gs)
+          && Nat.eqb (length o) (length a + length b) then 0 else 2)
   end.
